@@ -57,7 +57,7 @@ def data_path_roots(prog):
     return roots
 
 
-def check(ctx):
+def _check_own(ctx):
     prog = ctx.prog
     R = Roles(prog)
     roots = data_path_roots(prog)
@@ -212,6 +212,19 @@ def check_relink_values(ctx, prog, R, eff, moved_arms):
                 a = origins(prog, fn, t["args"][pidx - 1], at=b)
                 ctx.check(bool(a) and all(is_new_offset(fn, o) for o in a), "relink", "%s:passes-new-offset" % fn.name,
                           "%s does not pass the moved record's new offset to %s (%s)" % (fn.name, h.name, a), where=where(fn, b))
+    # the predecessor of a moved record is searched under the offset the chain still holds (its old one): a search for the
+    # *new* offset walks through the freed slot
+    finders = [f for f in prog.fns.values() if f.impl_self_adt == INNER and f.kind == "AssocFn" and f.impl_trait is None
+               and len(f.inputs) == 3 and f.inputs[1].endswith("semtype::HashValue") and "Piece<abyssiniandb::filedb::inner::semtype::Key>" in f.inputs[2]
+               and "Offset<" in f.output and calls_to(prog, f, target_fn=R.need("HEAD_READ")) and not calls_to(prog, f, target_fn=R.need("KEY_BYTES_AT"))]
+    for fd in finders:
+        for caller, b in prog.callers().get(fd.id, []):
+            t = caller.term(b)
+            a = origins(prog, caller, t["args"][2], at=b)
+            n += 1
+            ctx.check(bool(a) and not any(is_new_offset(caller, o) for o in a), "relink", "%s:searches-old-offset" % caller.name,
+                      "%s looks for the record that links to a moved record's NEW offset (%s); nothing links to it yet, so the walk runs "
+                      "through the slot that was just freed" % (caller.name, a), where=where(caller, b))
     # re-linking written inline in the moved arm (no helper): the same obligation on the arm's own link stores
     for fn, moved, site in moved_arms:
         reg = rd(fn, moved)
@@ -227,3 +240,10 @@ def check_relink_values(ctx, prog, R, eff, moved_arms):
 def tracer_place0(prog, fn):
     from .util import tracer, leaf_origins
     return leaf_origins(prog, fn, {"k": "cp", "pl": {"l": 0, "p": []}})
+
+
+def check(ctx):
+    _check_own(ctx)
+    from .engine import import_rules
+    # chain relinking on delete / overwrite is this property's subject: adopt the link-origin rules
+    import_rules(ctx, "c05", {"delete-links", "overwrite-links", "insert-links"})
